@@ -46,6 +46,10 @@ def check_cache(
     # keyed by the function's own parameter names: two nodes may wrap the same function
     # under different output names or with differently renamed inputs.
     identity = f"{node.definition_hash}:{','.join(node.outputs)}"
+    if node.is_interrupt:
+        # an interrupt reads its function's result differently (None pauses it): it
+        # must not be served the entry of a function node wrapping the same function
+        identity += ":interrupt"
     if isinstance(node, (RouteNode, IfElseNode)):
         # the cached value of a gate is the chosen TARGET: gates wrapping one routing
         # function with different (or exchanged) targets must not share an entry
